@@ -76,6 +76,7 @@ type ContractSet struct {
 	Opaque map[string]string
 	Ghosts map[string]string
 	Transp []string
+	Monotone map[string]bool // ghost counters (see 'ghost ... monotone')
 	Files  []string
 }
 
@@ -220,8 +221,16 @@ func (cs *ContractSet) parseContractFile(file, pkgPath string) error {
 		case "ghost":
 			// ghost <name> <sort>: abstract per-object state name(obj, index), e.g. the value of wire i of a solver
 			f := strings.Fields(rest)
+			if len(f) == 3 && f[2] == "monotone" {
+				// a counter: every effect clause only increases it, so an unknown callee or loop body leaves it at least as large
+				if cs.Monotone == nil {
+					cs.Monotone = map[string]bool{}
+				}
+				cs.Monotone[f[0]] = true
+				f = f[:2]
+			}
 			if len(f) != 2 {
-				return errf(fmt.Errorf("ghost <name> <sort>"))
+				return errf(fmt.Errorf("ghost <name> <sort> [monotone]"))
 			}
 			cs.Ghosts[f[0]] = f[1]
 		case "opaque":
